@@ -1,7 +1,7 @@
 package main
 
 // C20: struct-tag plumbing (client/setec/fields.go).  Shapes are built at run time with
-// reflect.StructOf, filled through setec.NewStore(StoreConfig.Structs) or through
+// reflect.StructOf, filled through newStoreReleased(StoreConfig.Structs) or through
 // setec.ParseFields + Fields.Apply on an existing store, against a scripted StoreClient that
 // logs every requested name.  The kernel re-runs the model (coq/Client/Fields.v) on the same
 // shape and compares the projected observables (coq/Corr/Run_C20.v).
@@ -534,7 +534,7 @@ func c20ExecMulti(in c20Input) (rec Record) {
 				structs = append(structs, setec.Struct{Value: vals[k].ptr.Interface(), Prefix: e.Prefix})
 			}
 			cl.onMiss = cancel
-			st, runErr = setec.NewStore(ctx, setec.StoreConfig{Client: cl, Secrets: in.Declared, AllowLookup: in.Allow,
+			st, runErr = newStoreReleased(ctx, setec.StoreConfig{Client: cl, Secrets: in.Declared, AllowLookup: in.Allow,
 				Structs: structs, PollInterval: -1, Logf: logf})
 			cl.onMiss = nil
 			switch {
@@ -552,7 +552,7 @@ func c20ExecMulti(in c20Input) (rec Record) {
 			sort.Strings(obs.Reqs)
 		default: // sapply
 			var err error
-			st, err = setec.NewStore(ctx, setec.StoreConfig{Client: cl, Secrets: in.Declared, AllowLookup: in.Allow,
+			st, err = newStoreReleased(ctx, setec.StoreConfig{Client: cl, Secrets: in.Declared, AllowLookup: in.Allow,
 				PollInterval: -1, Logf: logf})
 			if err != nil {
 				obs.ErrClass = 9
@@ -831,7 +831,7 @@ func c20Exec(in c20Input) (rec Record) {
 		switch in.Mode {
 		case "new":
 			cl.onMiss = cancel
-			st, runErr = setec.NewStore(ctx, setec.StoreConfig{Client: cl, Secrets: in.Declared, AllowLookup: in.Allow,
+			st, runErr = newStoreReleased(ctx, setec.StoreConfig{Client: cl, Secrets: in.Declared, AllowLookup: in.Allow,
 				Structs: []setec.Struct{{Value: arg, Prefix: in.Prefix}}, PollInterval: -1, Logf: logf})
 			cl.onMiss = nil
 			switch {
@@ -848,7 +848,7 @@ func c20Exec(in c20Input) (rec Record) {
 			sort.Strings(obs.Reqs)
 		case "reapply":
 			// ONE parsed Fields, applied twice: nothing of the first Apply may survive in the Fields value
-			st1, err := setec.NewStore(ctx, setec.StoreConfig{Client: cl, Secrets: in.Declared, AllowLookup: in.Allow,
+			st1, err := newStoreReleased(ctx, setec.StoreConfig{Client: cl, Secrets: in.Declared, AllowLookup: in.Allow,
 				PollInterval: -1, Logf: logf})
 			if err != nil {
 				obs.ErrClass = 9
@@ -939,7 +939,7 @@ func c20Exec(in c20Input) (rec Record) {
 					cl2.vals[s.Name] = &api.SecretValue{Value: append([]byte{}, s.Value...), Version: 1}
 				}
 				cl2.onMiss = cancel
-				st2, err := setec.NewStore(ctx, setec.StoreConfig{Client: cl2, Secrets: in.Declared2, AllowLookup: in.Allow2,
+				st2, err := newStoreReleased(ctx, setec.StoreConfig{Client: cl2, Secrets: in.Declared2, AllowLookup: in.Allow2,
 					PollInterval: -1, Logf: logf})
 				cl2.onMiss = nil
 				if err != nil {
@@ -974,7 +974,7 @@ func c20Exec(in c20Input) (rec Record) {
 				cfg = append(cfg, in.Declared...)
 			}
 			cl.onMiss = cancel
-			st, runErr = setec.NewStore(ctx, setec.StoreConfig{Client: cl, Secrets: cfg, AllowLookup: in.Allow,
+			st, runErr = newStoreReleased(ctx, setec.StoreConfig{Client: cl, Secrets: cfg, AllowLookup: in.Allow,
 				PollInterval: -1, Logf: logf})
 			cl.onMiss = nil
 			switch in.Scribble {
@@ -1013,7 +1013,7 @@ func c20Exec(in c20Input) (rec Record) {
 			sort.Strings(obs.Reqs)
 		default:
 			var err error
-			st, err = setec.NewStore(ctx, setec.StoreConfig{Client: cl, Secrets: in.Declared, AllowLookup: in.Allow,
+			st, err = newStoreReleased(ctx, setec.StoreConfig{Client: cl, Secrets: in.Declared, AllowLookup: in.Allow,
 				PollInterval: -1, Logf: logf})
 			if err != nil {
 				obs.ErrClass = 9
